@@ -5,7 +5,8 @@
 
   Request:  {"multi": [request, …]}  or  {"threads": nT, "nobj": nO, "objects": [o, …] | null, "implicit_td": bool,
              "trace": [["miss",t] | ["create",t,o] | ["raise",t] | ["ret",t,o] |
-                       ["tdbegin",t] | ["td",t,o,ok] | ["tdend",t,ok], …]}
+                       ["tdbegin",t] | ["td",t,o,ok] | ["tdend",t,null|o], …]}
+            (`tdend`: null = `teardown_factory` returned, o = it re-raised the exception of `teardown_object(o)`)
 
   Observable from user code are: entry of `setup_object` (= the slot read missed), its result, the value a
   `get_object` call returned, every `teardown_object` call and the begin/end of `teardown_factory`.  The two
@@ -14,7 +15,8 @@
   arrives, every object that precedes `o` in the snapshot and is not yet appended is stored+appended first
   (its creation has been observed earlier, so these steps are enabled exactly if the real order was
   possible).  With `implicit_td` (traces of real runs, where only the fixture's own teardown code is
-  visible) `tdbegin` is inserted before the first `td` of an idle thread and `tdend` at the end of the trace.
+  visible) `tdbegin` is inserted before the first `td` of an idle thread and `tdend` at the end of the trace, with
+  the outcome the model computes (the runner swallows the re-raised exception into an error log).
   Run: `lake env lean --run drivers/C15.lean`
 -/
 import LccModel.Proto
@@ -40,6 +42,7 @@ def errStr : Err → String
   | .pc => "program order violated (pc)" | .slotEmpty => "hit on an empty slot" | .slotFull => "miss on a filled slot"
   | .wrongObject => "not the object the code sees here" | .notFresh => "object identity not fresh"
   | .iter => "iterator position"
+  | .outcome => "teardown_factory does not end this way here (return vs re-raise of the first exception)"
 
 structure Out where
   accepted : Nat
@@ -100,10 +103,10 @@ def replay (nT nO : Nat) (snap : Option (List Nat)) (implicitTd : Bool) (labels 
         let s1 ← (if implicitTd && s.pc t == .idle then doStep nT nO s (.tdBegin t) s!"tdbegin {t} (implicit)" else .ok s)
         doStep nT nO s1 (.tdObj t o ok) s!"td {t} {o} {ok}"
       | "tdend" =>
-        let ok ← a[2]!.getBool?
-        if ok then doStep nT nO s (.tdEnd t) s!"tdend {t}"
-        else if s.pc t == .idle then .ok s
-        else .error s!"tdend {t} (raised): the model's loop has not been ended by a raising teardown_object"
+        let r : Option Nat ← (match a[2]! with
+          | .null => pure none
+          | v => do let n ← v.getNat?; pure (some n))
+        doStep nT nO s (.tdEnd t r) s!"tdend {t} {r}"
       | other => .error s!"unknown label {other}"
     match r with
     | .ok s' => s := s'
@@ -112,8 +115,8 @@ def replay (nT nO : Nat) (snap : Option (List Nat)) (implicitTd : Bool) (labels 
   if implicitTd then
     for t in List.range nT do
       match s.pc t with
-      | .tearing _ =>
-        match doStep nT nO s (.tdEnd t) s!"tdend {t} (implicit)" with
+      | .tearing _ pend =>
+        match doStep nT nO s (.tdEnd t pend) s!"tdend {t} (implicit)" with
         | .ok s' => s := s'
         | .error e => return { accepted := i, reject := some e, state := s }
       | _ => pure ()
@@ -141,6 +144,8 @@ def handleOne (j : Json) : Except String Json := do
     ("returned", Json.arr (s.returned.map (fun p => natArr [p.1, p.2])).toArray),
     ("td_count", natArr ((List.range nO).map s.tdCount)),
     ("td_begins", Json.num s.tdBegins), ("td_ends", Json.num s.tdEnds), ("td_raises", Json.num s.tdRaises),
+    ("td_obj_raises", Json.num s.tdObjRaises),
+    ("td_outcomes", Json.arr (s.tdOutcomes.map optNat).toArray),
     ("quiescent", Json.bool ((List.range nT).all (fun t => s.pc t == .idle)))])
 
 /-- `{"multi": [request, …]}` (one per factory instance of a real run) or a single request -/
